@@ -270,7 +270,14 @@ def eval_family(modname, fam, cases, with_model=True):
     """Returns (impl_obs, model_obs or None per case)."""
     impl_obs = run_impl(modname, fam, cases)
     model_obs = [None] * len(cases)
-    if fam.model_expr is not None and with_model:
+    if getattr(fam, "post_model", None) is not None and with_model:
+        # two-stage family: the model consumes data captured from the implementation run
+        good = [i for i, o in enumerate(impl_obs) if not (isinstance(o, dict) and "driver_crash" in o)]
+        if good:
+            vals = fam.post_model([cases[i] for i in good], [impl_obs[i] for i in good])
+            for i, v in zip(good, vals):
+                model_obs[i] = v
+    elif fam.model_expr is not None and with_model:
         idx, exprs = [], []
         for i, c in enumerate(cases):
             e = fam.model_expr(c)
